@@ -25,6 +25,7 @@ Decides:
                   without consuming anything (shared with C06).
  F converse        ParseFlag::eval: every outcome other than Ok(present) lies behind the "no declared variable set" edge (req_flag included);
  P unfiltered      the Option the environment lookup returns reaches the presence decision without an adaptor (an empty value is a value).
+ A no position     a value taken from the environment is handed on only after `args.current = None` (a failed conversion of it is not blamed on a word of the line).
 Does not decide: behaviour of the wrappers around an env-backed item (C06)."""
 import re
 from core import *
